@@ -24,6 +24,16 @@ def build(wt):
     return rc, o
 
 
+def run_demo(demo, wt, out):
+    """LD_LIBRARY_PATH only when the demo does not find the library through its own rpath (a demo that
+    links its own sanitizer-instrumented library must not be pointed at the plain one)"""
+    rc, o = sh("ldd %s" % demo)
+    env = "TSAN_OPTIONS='exitcode=1 halt_on_error=1' "
+    if "not found" in o:
+        env += "LD_LIBRARY_PATH=%s/_b/lib " % wt
+    return sh(env + demo, cwd=out, timeout=300)
+
+
 def verify(out, wt, name):
     out = os.path.abspath(out)
     res = {}
@@ -37,13 +47,13 @@ def verify(out, wt, name):
     res["tests_pass_with_change"] = ("100% tests passed" in o)
     rc, o = sh("sh %s/build_demo.sh %s/_b 2>&1 | tail -5" % (out, wt), cwd=out)
     demo = os.path.join(out, "demo")
-    rc1, o1 = sh("LD_LIBRARY_PATH=%s/_b/lib %s" % (wt, demo), cwd=out, timeout=120)
+    rc1, o1 = run_demo(demo, wt, out)
     res["demo_exit_with_change"] = rc1
     res["demo_output_with_change"] = o1[-600:]
     sh("git checkout -- .", cwd=wt)
     rc, o = build(wt)
     rc, o = sh("sh %s/build_demo.sh %s/_b 2>&1 | tail -5" % (out, wt), cwd=out)
-    rc0, o0 = sh("LD_LIBRARY_PATH=%s/_b/lib %s" % (wt, demo), cwd=out, timeout=120)
+    rc0, o0 = run_demo(demo, wt, out)
     res["demo_exit_without_change"] = rc0
     ok = res["compiles"] and res["tests_pass_with_change"] and rc1 != 0 and rc0 == 0
     print(json.dumps(res, indent=1))
